@@ -194,8 +194,10 @@ func genC15(r *hx.R, tier string, _ string) (*hx.Suite, error) {
 		Judge:    "judge15",
 		Shard:    300,
 		Rule: "AnnotationKey over plugin/device-id pairs with total key-name length 58..67, every character class (19 representatives incl. ':', '/', non-ASCII) " +
-			"at first/middle/last position of plugin and id; AnnotationValue over device lists with 0..4 entries and bad names at every index; " +
-			"UpdateAnnotations over nil/empty/foreign/CDI/conflicting initial maps; ParseAnnotations over maps with 0..3 CDI keys and foreign keys, " +
+			"at first/middle/last position of plugin and id, every byte value in the middle of plugin and id, first in the plugin, last in the id; " +
+			"AnnotationValue over device lists with 0..4 (sometimes 5..30) entries, repeated entries, bad names at every index; " +
+			"UpdateAnnotations over nil/empty/foreign/CDI/conflicting initial maps, maps holding near misses of the key (other case, longer, shorter, unreplaced slash), " +
+			"and histories (the result updated again with the same and with another id, the same request on a fresh copy); keys which only resemble CDI keys;  ParseAnnotations over maps with 0..3 CDI keys and foreign keys, " +
 			"bad names at every index; the internal k8s matcher on generated keys and mutations. Non-trivial: key cases with non-empty plugin and id, " +
 			"value cases with devices, update cases that succeed or start from a non-empty map, parse cases with a CDI key; distinct by input.",
 	}
@@ -204,6 +206,7 @@ func genC15(r *hx.R, tier string, _ string) (*hx.Suite, error) {
 	s.Add(c15Parse(map[string]string{"cdi.k8s.io/x": "vendor.com/class=dev1,dev2"}, "corpus"))
 	s.Add(c15Key("vendor.com-gpu", "0000:3b:00.0", "corpus"))
 	s.Add(c15Key("a", "b", "corpus"))
+	s.Add(c15Parse(nil, "corpus"))
 	// keys: lengths around the limit
 	for total := 58; total <= 67; total++ {
 		for _, pl := range []int{1, 2, 10, total - 2} {
@@ -225,6 +228,14 @@ func genC15(r *hx.R, tier string, _ string) (*hx.Suite, error) {
 			s.Add(c15K8s(part))
 			s.Add(c15K8s(part + "/" + part))
 		}
+	}
+	// every byte value in the middle of the plugin name and of the device id, first in the plugin, last in the id
+	for b := 0; b < 256; b++ {
+		x := string([]byte{byte(b)})
+		s.Add(c15Key("a"+x+"b", "id0", "key-bytes"))
+		s.Add(c15Key("plug.in", "a"+x+"b", "key-bytes"))
+		s.Add(c15Key(x+"b", "id0", "key-bytes"))
+		s.Add(c15Key("plug.in", "a"+x, "key-bytes"))
 	}
 	s.Add(c15Key("", "x", "key-chars"))
 	s.Add(c15Key("x", "", "key-chars"))
@@ -255,7 +266,14 @@ func genC15(r *hx.R, tier string, _ string) (*hx.Suite, error) {
 		if r.Chance(0.4) {
 			pBad = 0.4
 		}
+		if r.Chance(0.1) {
+			nd = 5 + r.Intn(26)
+		}
 		ds := randDevices(r, nd, pBad)
+		if nd > 1 && r.Chance(0.3) {
+			// the same device asked for twice (next to each other or not): both stay
+			ds[r.Intn(nd)] = ds[r.Intn(nd)]
+		}
 		s.Add(c15Val(ds))
 		// update
 		var m map[string]string
@@ -277,7 +295,32 @@ func genC15(r *hx.R, tier string, _ string) (*hx.Suite, error) {
 				m[k] = hx.Pick(r, []string{"vendor.com/class=old", "", "vendor.com/class=old", " ", "x", ","})
 			}
 		}
+		if k, err := cdi.AnnotationKey(pl, id); err == nil && r.Chance(0.4) {
+			// neighbours of the key which are NOT the key: other case, longer, shorter, the id with its slashes, a blank
+			if m == nil {
+				m = map[string]string{}
+			}
+			near := []string{strings.ToUpper(k), strings.ToLower(k), "cdi.k8s.io/" + strings.ToUpper(k[len("cdi.k8s.io/"):]), k + "x", k[:len(k)-1], k + " ", " " + k,
+				"cdi.k8s.io/" + pl + "_" + id, "cdi.k8s.io/" + pl + "/" + id, k[len("cdi.k8s.io/"):], strings.Replace(k, "_", "-", 1)}
+			for j, nn := 0, 1+r.Intn(3); j < nn; j++ {
+				if x := hx.Pick(r, near); x != k {
+					m[x] = hx.Pick(r, []string{"vendor.com/class=near", "", "x"})
+				}
+			}
+		}
 		s.Add(c15Upd(m, pl, id, ds, "update"))
+		if r.Chance(0.5) {
+			// histories: the result of a successful update is updated again - the same plugin and id are refused, another id
+			// is added next to the first; and the same request on a fresh copy of the first map succeeds again
+			var m1 map[string]string
+			var e1 error
+			if p, _ := hx.Guard(func() { m1, e1 = cdi.UpdateAnnotations(copyMap(m), pl, id, ds) }); !p && e1 == nil {
+				ds2 := randDevices(r, 1+r.Intn(3), 0)
+				s.Add(c15Upd(copyMap(m1), pl, id, ds2, "update-again"))
+				s.Add(c15Upd(copyMap(m1), pl, id+"x", ds2, "update-again"))
+				s.Add(c15Upd(copyMap(m), pl, id, ds2, "update-again"))
+			}
+		}
 		// parse
 		pm := map[string]string{}
 		nk := r.Intn(4)
@@ -303,6 +346,24 @@ func genC15(r *hx.R, tier string, _ string) (*hx.Suite, error) {
 		if r.Chance(0.1) {
 			pm["cdi.k8s.io"] = "unqualified"
 			pm["CDI.K8S.IO/x"] = "unqualified"
+		}
+		if r.Chance(0.3) {
+			// keys that only resemble CDI keys (foreign: whatever they hold is ignored) and odd keys that ARE CDI keys
+			for j, nn := 0, 1+r.Intn(2); j < nn; j++ {
+				k := hx.Pick(r, []string{"xcdi.k8s.io/x", "example.com/cdi.k8s.io/x", " cdi.k8s.io/x", "cdi.k8s.io.evil/x", "cdi.k8s.io", "cdi.k8s.i", "Cdi.k8s.io/x", "cdi.k8s.io\\x", "cdi-k8s.io/x", "k8s.io/x", "/cdi.k8s.io/x",
+					"cdi.k8s.io/", "cdi.k8s.io//x", "cdi.k8s.io/x/y", "cdi.k8s.io/ x", "cdi.k8s.io/cdi.k8s.io/x"})
+				pm[k] = hx.Pick(r, []string{"unqualified", "vendor.com/class=dev0", "vendor.com/class=dev0,vendor.com/class=dev1", ""})
+			}
+		}
+		if r.Chance(0.1) {
+			// a long request, the same device more than once
+			ds := randDevices(r, 9+r.Intn(30), 0)
+			ds[len(ds)-1] = ds[0]
+			ds[len(ds)/2] = ds[len(ds)/2-1]
+			if r.Chance(0.3) {
+				ds[r.Intn(len(ds))] = randDevice(r, false)
+			}
+			pm["cdi.k8s.io/long_"+randPart(r, true)] = strings.Join(ds, ",")
 		}
 		s.Add(c15Parse(pm, "parse"))
 		// full round trip: update then parse
